@@ -1,0 +1,88 @@
+//go:build verif
+
+package starlark
+
+// Verification hooks (build tag "verif"): read-only dumps of private state
+// and an override for the seed-dependent string hash. Not part of the API.
+
+import (
+	"fmt"
+	"strings"
+)
+
+var verifStringHashFn func(string) (uint32, bool)
+
+// VerifSetStringHash installs (or, with nil, removes) a function that
+// decides the hash of a string instead of hashString.
+func VerifSetStringHash(f func(string) (uint32, bool)) { verifStringHashFn = f }
+
+func verifStringHash(s string) (uint32, bool) {
+	if f := verifStringHashFn; f != nil {
+		return f(s)
+	}
+	return 0, false
+}
+
+// VerifLayout returns a canonical description of the private layout of the
+// dict's hash table: everything insert/lookup/delete/grow can depend on.
+func (d *Dict) VerifLayout(name func(Value) string) string { return d.ht.verifLayout(name) }
+
+// VerifLayout is the Set counterpart of (*Dict).VerifLayout.
+func (s *Set) VerifLayout(name func(Value) string) string { return s.ht.verifLayout(name) }
+
+func (ht *hashtable) verifLayout(name func(Value) string) string {
+	var sb strings.Builder
+	fmt.Fprintf(&sb, "n=%d len=%d it=%d fr=%v nil=%v|", len(ht.table), ht.len, ht.itercount, ht.frozen, ht.table == nil)
+	for j := range ht.table {
+		for p := &ht.table[j]; p != nil; p = p.next {
+			sb.WriteByte('[')
+			for i := range p.entries {
+				e := &p.entries[i]
+				if e.hash == 0 {
+					sb.WriteByte('.')
+				} else {
+					fmt.Fprintf(&sb, "%s:%x", name(e.key), e.hash)
+				}
+				sb.WriteByte(',')
+			}
+			sb.WriteByte(']')
+		}
+		sb.WriteByte('/')
+	}
+	sb.WriteString("|order=")
+	n := 0
+	link := &ht.head
+	for e := ht.head; e != nil; e = e.next {
+		if e.prevLink != link {
+			sb.WriteString("!badprev")
+		}
+		link = &e.next
+		sb.WriteString(name(e.key))
+		sb.WriteByte(',')
+		if n++; n > 1<<20 {
+			sb.WriteString("!cycle")
+			break
+		}
+	}
+	if ht.table != nil && ht.tailLink != link {
+		sb.WriteString("!badtail")
+	}
+	return sb.String()
+}
+
+// VerifIterCount reports the number of active iterators recorded in v
+// (a *List, *Dict or *Set) and whether v is frozen.
+func VerifIterCount(v Value) (count int, frozen bool, ok bool) {
+	switch v := v.(type) {
+	case *List:
+		return int(v.itercount), v.frozen, true
+	case *Dict:
+		return int(v.ht.itercount), v.ht.frozen, true
+	case *Set:
+		return int(v.ht.itercount), v.ht.frozen, true
+	}
+	return 0, false, false
+}
+
+// VerifIntRepr names the Int representation that is live in this process.
+func VerifIntRepr() string { return verifIntRepr() }
